@@ -217,6 +217,47 @@ def dotname_cases(rnd):
     return lines
 
 
+def linkfile_cases(arcs, rnd, quick):
+    """a symbolic link already at the place of a member's final path component, pointing at a FILE outside the extraction
+    directory or at nothing (both allowed by the property's precondition: only links to directories are excluded) --
+    dangling links into writable foreign directories, and links that the tool cannot remove because the directory that
+    holds them is read-only: whatever happens to the link, nothing outside may be created, truncated or re-timed"""
+    lines = []
+    use = {a.name: a for a in arcs if a.name in ("flat", "tree", "nodirs", "rodirs")}
+    dangling = [b"/outside/new", b"../outside/new2", b"/foreign/ww/new", b"../foreign/ww/n2", b"/outside/nd/x", b"../foreign/new3"]
+    existing = [b"/outside/f", b"../outside/f", b"/foreign/rd/g", b"../foreign/ww/h", b"/foreign/rf", b"/arc/a.lzh"]
+    cmds = [b"x", b"xf", b"xq2", b"e", b"xq1", b"eq0"]
+    for name, a in sorted(use.items()):
+        files = [f for f in a.files() if not f.startswith(b"/") and b".." not in f.split(b"/")]
+        for f in files:
+            parts = f.split(b"/")
+            parent = [TC.op_mkdir(b"/".join(parts[:i])) for i in range(1, len(parts))]
+            pdir = b"/".join(parts[:-1]) or b"."
+            up = b"../" * (len(parts) - 1)
+            for tg in dangling + existing:
+                t = tg if tg.startswith(b"/") else up + tg
+                for locked in (False, True):
+                    su = parent + [TC.op_link(f, t)] + ([TC.op_chmod(pdir, 0o555)] if locked else [])
+                    for c in (cmds if not quick else rnd.sample(cmds, 2)):
+                        lines.append(TC.case([c, TC.ARC], a.bytes, b"y\ny\ny\ny\n", su, uid0=1 if rnd.random() < 0.1 else 0))
+            # flattened and relocated: the link sits where the flat / relocated name goes
+            base = parts[-1]
+            for tg in (b"/outside/new", b"/outside/f"):
+                lines.append(TC.case([b"xi", TC.ARC], a.bytes, b"y\ny\ny\n", [TC.op_link(base, tg), TC.op_chmod(b".", 0o555)]))
+                lines.append(TC.case([b"xfi", TC.ARC], a.bytes, b"", [TC.op_link(base, tg)]))
+                lines.append(TC.case([b"xfw=o", TC.ARC], a.bytes, b"", [TC.op_mkdir(b"o")] + TC.relocate(parent, b"o/") +
+                                     [TC.op_link(b"o/" + f, tg), TC.op_chmod(b"o/" + pdir if pdir != b"." else b"o", 0o555)]))
+        # a link to an outside FILE where the archive has a directory entry with recorded mode and time
+        for d in a.dirs():
+            dd = d.rstrip(b"/")
+            if b"/" in dd:
+                continue
+            for tg in (b"/outside/f", b"../outside/f", b"/foreign/rd/g", b"/outside/new"):
+                for c in (b"x", b"xf", b"xq2"):
+                    lines.append(TC.case([c, TC.ARC], a.bytes, b"y\ny\n", [TC.op_link(dd, tg)], uid0=1 if rnd.random() < 0.3 else 0))
+    return lines
+
+
 def run(ctx):
     rnd = random.Random(ctx.seed * 7919 + 10)
     cb = CBuild(PID)
@@ -240,6 +281,7 @@ def run(ctx):
         if q:
             fam["danger"] = TC.thin(fam["danger"], 500, rnd)
         fam["dotnames"] = dotname_cases(rnd)
+        fam["linkfile"] = TC.thin(linkfile_cases(arcs, rnd, q), 200 if q else 100000, rnd)
         corpus = [l.strip() for l in open(os.path.join(common.VERIF, "corpus", "C10", "deferred_through_safe_link.txt")) if l.startswith("cli ")]
         fam["corpus"] = corpus
         base_line = TC.case([b"t", TC.ARC], b"\0")
@@ -318,7 +360,7 @@ def run(ctx):
         viol.sort(key=lambda v: len(v["case"]))
         cov = {"evaluations": sum(len(v) for v in fam.values()) + n_ord, "distinct_nontrivial": n_conf + n_ro,
                "rule": "invocations of the real tool in a jail: hand-built and generated archives with dangerous and safe links chained, "
-                       "links then directories of the same name, equal-length deferred links, entries whose own name is '..', '.' or empty (as directory, file, link; with recorded mode, time, owner; as uid 65534 and as root), hostile names ('..', absolute, "
+                       "links then directories of the same name, equal-length deferred links, links already at a member's final component that point at an outside file or at nothing (also in a read-only directory, where the tool cannot remove them), entries whose own name is '..', '.' or empty (as directory, file, link; with recorded mode, time, owner; as uid 65534 and as root), hostile names ('..', absolute, "
                        "backslash, 0xFF, NUL), corrupt archives; every command letter; option sets over f q0-q2 i v n w=DIR (simple, "
                        "nested, absolute, empty, with '..'); pre-existing files, directories and links at the targets with prompt "
                        "answers; a share of the runs as root.  (a) %d extractions whose precondition holds: everything outside "
